@@ -1,0 +1,105 @@
+//go:build verif
+// +build verif
+
+// Contracts for deductive verification (govc, /verif). Comment-only file.
+
+package p2p
+
+// ======================= C20: messages =======================
+// Getter semantics: nil message / header / data read as zero values.
+//@ macro mInfo(msg) = msg == nil || msg.Data == nil ? nil : msg.Data.MsgInfo
+//@ macro mCompressed(msg) = msg == nil || msg.Header == nil ? false : msg.Header.EnableCompress
+//@ macro mSum(msg) = msg == nil || msg.Header == nil ? 0 : msg.Header.DataCheckSum
+// The payload an envelope carries: the MsgInfo bytes, snappy-decoded when the flag is set.
+//@ macro mPayload(msg) = mCompressed(msg) ? snappyDec(mInfo(msg)) : mInfo(msg)
+
+//@ func Checksum
+//@   property C20
+//@   ensures covers_encoded_payload: result == crcOf(str(mInfo(msg)))
+//@ func VerifyChecksum
+//@   property C20
+//@   ensures compares_with_header: result == (crcOf(str(mInfo(msg))) == mSum(msg))
+
+// Compress: a non-empty, not yet compressed payload is replaced by its snappy
+// encoding and flagged; anything else is left alone.
+//@ func Compress
+//@   property C20
+//@   ensures compresses_nonempty: len(old(mInfo(msg))) > 0 && !old(mCompressed(msg)) ==> msg.Data.MsgInfo == snappyEnc(old(msg.Data.MsgInfo)) && len(msg.Data.MsgInfo) > 0 && msg.Header.EnableCompress
+//@   ensures leaves_rest_alone: !(len(old(mInfo(msg))) > 0 && !old(mCompressed(msg))) ==> mInfo(msg) == old(mInfo(msg)) && mCompressed(msg) == old(mCompressed(msg))
+
+// Decompress returns the payload of the envelope (absent payload of an uncompressed message included).
+//@ func Decompress
+//@   property C20
+//@   ensures payload: result1 == nil ==> (mCompressed(msg) ==> snappyDecOK(mInfo(msg))) && result0 == mPayload(msg)
+//@   ensures never_refuses_wellformed: msg != nil && msg.Header != nil && msg.Data != nil && (!mCompressed(msg) || snappyDecOK(mInfo(msg))) ==> result1 == nil
+
+//@ spec func pbDecoded(payload bytes, message iface) bool
+//@ func Unmarshal
+//@   property C20
+//@   requires decode_target_is_not_the_envelope: msg == nil || (ifacePtr(message) != msg && ifacePtr(message) != msg.Header && ifacePtr(message) != msg.Data)
+//@   ensures checksum_verified_before_use: result == nil ==> crcOf(str(mInfo(msg))) == mSum(msg)
+//@   ensures decompress_ok: result == nil ==> (mCompressed(msg) ==> snappyDecOK(mInfo(msg)))
+//@   ensures checksum_error_only_on_mismatch: result == ErrMessageChecksum ==> crcOf(str(mInfo(msg))) != mSum(msg)
+//@   ensures decompress_error_only_on_bad_payload: result == ErrMessageDecompress ==> msg == nil || msg.Header == nil || msg.Data == nil || (mCompressed(msg) && !snappyDecOK(mInfo(msg)))
+
+// NewMessage: the checksum is taken over the final (compressed) payload bytes;
+// without options, a non-empty encoding is sent snappy-compressed and flagged, an
+// empty one uncompressed.
+//@ func NewMessage
+//@   property C20
+//@   ensures checksum_over_final_payload: result != nil && result.Header != nil && mSum(result) == crcOf(str(mInfo(result)))
+//@   ensures flag_iff_nonempty: len(opts) == 0 ==> mCompressed(result) == (len(mInfo(result)) > 0)
+//@   ensures nil_message_empty_payload: len(opts) == 0 && message == nil ==> mInfo(result) == nil && !mCompressed(result)
+//@   loop 1 invariant no_options_no_change: len(opts) == 0 ==> msg.Header != nil && msg.Data != nil && !msg.Header.EnableCompress && (message == nil ==> msg.Data.MsgInfo == nil)
+//@   loop 1 invariant msg_alive: msg != nil
+
+// Round trip over the envelope: what Decompress returns for an envelope built by
+// Compress from payload m is m (as byte content), also after the wire turned an empty field into nil.
+//@ lemma envelope_round_trip: forall m bytes :: (len(m) > 0 ==> snappyDecOK(snappyEnc(m)) && str(snappyDec(snappyEnc(m))) == str(m))
+//@   property C20
+//@   uses snappyRoundTrip
+
+//@ func GetRespMessageType
+//@   property C20
+//@   ensures table_or_successor: result == (in(requestToResponse, msgType) ? requestToResponse[msgType] : msgType + 1)
+
+//@ func subscriber.Match
+//@   property C20
+//@   ensures filters: result == ((s.from == "" || s.from == (msg == nil || msg.Header == nil ? "" : msg.Header.From)) && (s.bcName == "" || s.bcName == (msg == nil || msg.Header == nil ? "" : msg.Header.Bcname)))
+
+// ======================= C20: dispatcher =======================
+//@ func dispatcher.IsHandled
+//@   noverify
+//@   pure
+//@ ghost var lastMasked int
+//@ func dispatcher.MaskHandled
+//@   noverify
+//@   sets lastMasked = msg
+
+// Register / UnRegister: the subscriber table is only touched under the write lock.
+//@ func dispatcher.Register
+//@   property C20
+//@   at mapread.mc assert table_read_locked: sel(rwHeld, d.mu) >= 1
+//@   at mapwrite.mc assert table_write_locked: sel(rwHeld, d.mu) == 2
+//@   ensures lock_released: sel(rwHeld, d.mu) == 0 || result == ErrSubscriber
+//@ func dispatcher.UnRegister
+//@   property C20
+//@   at mapread.mc assert table_read_locked: sel(rwHeld, d.mu) >= 1
+//@   ensures lock_released: sel(rwHeld, d.mu) == 0 || result == ErrSubscriber
+
+// Dispatch: the table is read only under the lock; a message not handled before
+// is handed exactly once to every subscriber registered for its type whose Match
+// accepts it and to no other; a repeat, or a failed dispatch, delivers nothing;
+// a delivered message is marked handled before the normal return.
+//@ func dispatcher.Dispatch
+//@   property C20
+//@   let typ = msg.Header.Type
+//@   at mapread.mc assert table_read_locked: sel(rwHeld, d.mu) >= 1
+//@   at Subscriber.HandleMessage assert only_matching_registered: recv.Match(msg) && in(d.mc[typ], recv) && $1 == msg && $2 == stream
+//@   ensures lock_released: sel(rwHeld, d.mu) == old(sel(rwHeld, d.mu)) || sel(rwHeld, d.mu) == 0
+//@   ensures exactly_once_to_matching: result == nil && msg != nil && msg.Header != nil && !d.IsHandled(msg) ==> (forall sub Subscriber :: sel(delivered, sub) == sel(old(delivered), sub) + (in(d.mc[typ], sub) && sub.Match(msg) ? 1 : 0))
+//@   ensures repeats_and_failures_deliver_nothing: result != nil || d.IsHandled(msg) ==> delivered == old(delivered)
+//@   ensures marked_handled: result == nil && !d.IsHandled(msg) ==> lastMasked == msg
+//@   loop 1 invariant delivered_so_far: forall sub Subscriber :: sel(delivered, sub) == sel(old(delivered), sub) + (in($visited, sub) && sub.Match(msg) ? 1 : 0)
+//@   loop 1 invariant visited_registered: forall sub Subscriber :: in($visited, sub) ==> in(d.mc[typ], sub)
+//@   loop 1 invariant locked: sel(rwHeld, d.mu) == 1 && msg != nil && msg.Header != nil && !d.IsHandled(msg)
